@@ -1783,4 +1783,205 @@ example : validArgs ⟨none, none, none, none, none, none, some [(0, 120)], some
 example : filterNodes none [(0, []), (1, [(0, 1)])] [0] = [1] := by decide
 example : filterNodes (some [(0, 1)]) [(0, []), (1, [(0, 1)]), (2, [(0, 1), (1, 0)])] [2] = [1] := by decide
 
+/-! ## extension round 5: what the PROD pass of a round may count as headroom
+
+utilization_util.go evictPodsFromSourceNodes: after the node-level pass the both-low nodes' node
+headroom is capped at what that pass left (`if both > remaining { both = remaining }`), and the prod
+pass starts from   Σ prod-low-only (prodHigh − prodUsage)  +  min(Σ both-low (prodHigh − prodUsage), both).
+`remaining` also holds the headroom of the nodes that are low at NODE level only; they are no
+destination of the prod pass.  Proved here (all inputs of the model): the prod pass never starts
+with — and no prod Evict call ever sees — more headroom than
+   prod headroom of the prod-low-only nodes + NODE headroom of the both-low nodes
+(nor more than … + their prod headroom, nor more than … + what the node pass left), whatever the
+node-level-only receivers have; and the headroom a prod call sees is positive.
+-/
+
+/-- componentwise `≤` on the common prefix (the vectors of one round all have `dims` entries). -/
+def VLe : Vec → Vec → Prop
+  | a :: as, b :: bs => a ≤ b ∧ VLe as bs
+  | _, _ => True
+
+theorem VLe.refl (a : Vec) : VLe a a := by
+  induction a with
+  | nil => trivial
+  | cons x xs ih => exact ⟨Int.le_refl _, ih⟩
+
+theorem vmin_le_left (a b : Vec) : VLe (vmin a b) a := by
+  induction a generalizing b with
+  | nil => simp [VLe]
+  | cons x xs ih =>
+    cases b with
+    | nil => simp [vmin, VLe]
+    | cons y ys =>
+      simp only [vmin, VLe]
+      refine ⟨?_, ih ys⟩
+      split <;> omega
+
+theorem vmin_le_right (a b : Vec) : VLe (vmin a b) b := by
+  induction a generalizing b with
+  | nil => cases b <;> simp [vmin, VLe]
+  | cons x xs ih =>
+    cases b with
+    | nil => simp [vmin, VLe]
+    | cons y ys =>
+      simp only [vmin, VLe]
+      refine ⟨?_, ih ys⟩
+      split <;> omega
+
+theorem vmin_vmin_le_mid (a b c : Vec) : VLe (vmin a (vmin b c)) b := by
+  induction a generalizing b c with
+  | nil => cases b <;> simp [vmin, VLe]
+  | cons x xs ih =>
+    cases b with
+    | nil => simp [vmin, VLe]
+    | cons y ys =>
+      cases c with
+      | nil => simp [vmin, VLe]
+      | cons z zs =>
+        simp only [vmin, VLe]
+        refine ⟨?_, ih ys zs⟩
+        split <;> split <;> omega
+
+theorem vmin_vmin_le_last (a b c : Vec) : VLe (vmin a (vmin b c)) c := by
+  induction a generalizing b c with
+  | nil => cases c <;> simp [vmin, VLe]
+  | cons x xs ih =>
+    cases b with
+    | nil => simp [vmin, VLe]
+    | cons y ys =>
+      cases c with
+      | nil => simp [vmin, VLe]
+      | cons z zs =>
+        simp only [vmin, VLe]
+        refine ⟨?_, ih ys zs⟩
+        split <;> split <;> omega
+
+theorem vadd_mono_right (p a b : Vec) (h : VLe a b) : VLe (vadd p a) (vadd p b) := by
+  induction p generalizing a b with
+  | nil => simp [vadd, VLe]
+  | cons x xs ih =>
+    cases a with
+    | nil => simp [vadd, VLe]
+    | cons y ys =>
+      cases b with
+      | nil => simp [vadd, VLe]
+      | cons z zs =>
+        simp only [vadd, VLe] at h ⊢
+        exact ⟨by omega, ih ys zs h.2⟩
+
+theorem vsub_mono_left (a b m : Vec) (h : VLe a b) : VLe (vsub a m) (vsub b m) := by
+  induction m generalizing a b with
+  | nil => cases a <;> cases b <;> simp [vsub, VLe]
+  | cons x xs ih =>
+    cases a with
+    | nil => simp [vsub, VLe]
+    | cons y ys =>
+      cases b with
+      | nil => simp [vsub, VLe]
+      | cons z zs =>
+        simp only [vsub, VLe] at h ⊢
+        exact ⟨by omega, ih ys zs h.2⟩
+
+theorem finalAvail_mono (es : List Ev) (a b : Vec) (h : VLe a b) :
+    VLe (finalAvail a es) (finalAvail b es) := by
+  induction es generalizing a b with
+  | nil => simpa [finalAvail] using h
+  | cons e es ih =>
+    simp only [finalAvail, List.foldl_cons]
+    apply ih
+    unfold Ev.after
+    split
+    · exact vsub_mono_left _ _ _ h
+    · exact h
+
+/-- the i-th call of a pass sees the initial headroom minus what the calls before it moved. -/
+theorem availChain_split (a : Vec) (pre post : List Ev) (e : Ev)
+    (h : AvailChain a (pre ++ e :: post)) : e.avail = finalAvail a pre := by
+  have := (availChain_append a pre (e :: post)).mp h
+  exact this.2.1
+
+/-- the headroom the prod pass of a round starts with (evictPodsFromSourceNodes). -/
+def prodStart (nodeFit : Bool) (dims : Nat) (podOrd : Nat → List Nat)
+    (src low psrc plow both : List Node) : Vec :=
+  vadd (vadd (List.replicate dims 0) (targetAvail true (List.replicate dims 0) plow))
+    (vmin (targetAvail true (List.replicate dims 0) both)
+      (vmin (targetAvail false (List.replicate dims 0) both)
+        (evictFromSources false nodeFit dims podOrd src low psrc plow both).1.avail))
+
+/-- the bound that does not mention the node-level-only receivers `low` at all:
+    prod headroom of the prod-low-only nodes + NODE headroom of the both-low nodes. -/
+def prodCapNode (dims : Nat) (plow both : List Node) : Vec :=
+  vadd (vadd (List.replicate dims 0) (targetAvail true (List.replicate dims 0) plow))
+    (targetAvail false (List.replicate dims 0) both)
+
+/-- … + PROD headroom of the both-low nodes. -/
+def prodCapProd (dims : Nat) (plow both : List Node) : Vec :=
+  vadd (vadd (List.replicate dims 0) (targetAvail true (List.replicate dims 0) plow))
+    (targetAvail true (List.replicate dims 0) both)
+
+/-- The prod pass starts with at most: the prod headroom of the prod-low-only nodes plus
+    (a) the NODE headroom of the both-low nodes, (b) their PROD headroom, (c) what the node pass
+    left of its own headroom — in every resource.  (a) and (b) do not depend on the nodes that are
+    low at node level only, however much room those have. -/
+theorem prod_headroom_capped (nodeFit : Bool) (dims : Nat) (podOrd : Nat → List Nat)
+    (src low psrc plow both : List Node) :
+    VLe (prodStart nodeFit dims podOrd src low psrc plow both) (prodCapNode dims plow both) ∧
+    VLe (prodStart nodeFit dims podOrd src low psrc plow both) (prodCapProd dims plow both) ∧
+    VLe (prodStart nodeFit dims podOrd src low psrc plow both)
+      (vadd (vadd (List.replicate dims 0) (targetAvail true (List.replicate dims 0) plow))
+        (evictFromSources false nodeFit dims podOrd src low psrc plow both).1.avail) := by
+  refine ⟨?_, ?_, ?_⟩
+  · exact vadd_mono_right _ _ _ (vmin_vmin_le_mid _ _ _)
+  · exact vadd_mono_right _ _ _ (vmin_le_left _ _)
+  · exact vadd_mono_right _ _ _ (vmin_vmin_le_last _ _ _)
+
+/-- Every Evict call of the prod pass — written as `pre ++ e :: post`, `pre` the prod calls before
+    it — sees a headroom that is positive in every tracked resource, equals the start value minus
+    what `pre` moved, and is therefore at most  (prod headroom of the prod-low-only nodes + NODE
+    headroom of the both-low nodes) − moved by `pre`:  once the prod pass has moved that much, it
+    issues no further call, whatever room the node-level-only receivers have left. -/
+theorem prod_evict_within_both_low_node_headroom (nodeFit : Bool) (dims : Nat)
+    (podOrd : Nat → List Nat) (src low psrc plow both : List Node) (pre post : List Ev) (e : Ev)
+    (h : (evictFromSources false nodeFit dims podOrd src low psrc plow both).2.evs = pre ++ e :: post) :
+    allPos e.avail = true ∧
+    e.avail = finalAvail (prodStart nodeFit dims podOrd src low psrc plow both) pre ∧
+    VLe e.avail (finalAvail (prodCapNode dims plow both) pre) ∧
+    VLe e.avail (finalAvail (prodCapProd dims plow both) pre) := by
+  have hc := (round_headroom_exact nodeFit dims podOrd src low psrc plow both).2
+  rw [h] at hc
+  have heq : e.avail = finalAvail (prodStart nodeFit dims podOrd src low psrc plow both) pre :=
+    availChain_split _ pre post e hc
+  have hmem : e ∈ (evictFromSources false nodeFit dims podOrd src low psrc plow both).2.evs := by
+    rw [h]; simp
+  have hpos : allPos e.avail = true := by
+    unfold evictFromSources at hmem
+    exact (balancePods_sound _ _ _ _ _ _ _ _ hmem).2.2.2.2.1
+  have hcap := prod_headroom_capped nodeFit dims podOrd src low psrc plow both
+  refine ⟨hpos, heq, ?_, ?_⟩
+  · rw [heq]; exact finalAvail_mono _ _ _ hcap.1
+  · rw [heq]; exact finalAvail_mono _ _ _ hcap.2.1
+
+/-! ### non-vacuity: the three-node shape (one resource, quantities in milli-cpu)
+
+ S (8000m): prod usage 4380 > prod high 4000, node usage 4400 ≤ node high 4800: prod-pass source with
+            three removable prod pods of 180m;
+ B (1000m): usage 317 ≤ low 350, prod usage 0: both-low; NODE headroom 600 − 317 = 283, prod headroom 500;
+ L (16000m): usage 4680 ≤ low 5600, prod usage 4680 between prod low 4560 and prod high 8000: receiver
+            of the node pass only, node headroom 4920.
+ The prod pass issues TWO calls (283 → 103 → −77) although S is still over its prod high threshold
+ (4380 − 360 = 4020 > 4000) and a third removable pod is left: L's 4920 are no room for prod pods. -/
+namespace Shape
+def sp (i : Nat) : Pod := ⟨i, true, true, [180], [180], true, true, true⟩
+def S : Node := ⟨0, false, false, [4400], [4380], [2800], [4800], [2280], [4000], [sp 2, sp 3, sp 4]⟩
+def B : Node := ⟨1, false, false, [317], [0], [350], [600], [285], [500], []⟩
+def L : Node := ⟨2, false, false, [4680], [4680], [5600], [9600], [4560], [8000], []⟩
+def rin : RoundIn := ⟨3, false, 1, [S, B, L], [], fun _ => [], fun _ => 0, fun _ => 0, fun _ => []⟩
+end Shape
+
+example : classify Shape.S = .prodHigh ∧ classify Shape.B = .bothLow ∧ classify Shape.L = .low := by decide
+example : prodStart false 1 (fun _ => []) [] [Shape.L] [Shape.S] [] [Shape.B] = [283] ∧
+    prodCapNode 1 [] [Shape.B] = [283] ∧ prodCapProd 1 [] [Shape.B] = [500] := by decide
+example : ((runRound ⟨none, 0, false⟩ ⟨[], []⟩ Shape.rin).evs.map (fun e => (e.pod, e.avail, e.usage))) =
+    [(2, [283], [4380]), (3, [103], [4200])] := by decide
+
 end KoordVerif.C18
